@@ -5,6 +5,7 @@
 pub mod util;
 
 pub mod c05;
+pub mod c06;
 pub mod c15;
 pub mod c29;
 pub mod c40;
